@@ -215,6 +215,96 @@ func errorExits(fn *ast.FuncDecl) []ast.Expr {
 	return out
 }
 
+func isZero(e ast.Expr) bool {
+	e = stripConversions(e)
+	l, ok := e.(*ast.BasicLit)
+	return ok && l.Value == "0"
+}
+
+// stripConversions removes integer conversions and parentheses around an expression: int(uint64(x)) -> x
+func stripConversions(e ast.Expr) ast.Expr {
+	for {
+		e = stripParens(e)
+		ce, ok := e.(*ast.CallExpr)
+		if !ok || len(ce.Args) != 1 {
+			return e
+		}
+		id, ok := ce.Fun.(*ast.Ident)
+		if !ok {
+			return e
+		}
+		switch id.Name {
+		case "int", "int32", "int64", "uint", "uint32", "uint64":
+			e = ce.Args[0]
+		default:
+			return e
+		}
+	}
+}
+
+// tripCount: the expression a plain counting loop runs "that many times":
+// `for i := 0; i < B; i++` (also `B > i`, `i != B`) gives B; `for r := B; r > 0; r--` (also `0 < r`, `r != 0`) gives B.
+func tripCount(x *ast.ForStmt) ast.Expr {
+	init, ok := x.Init.(*ast.AssignStmt)
+	if !ok || len(init.Lhs) != 1 || len(init.Rhs) != 1 {
+		return nil
+	}
+	v, ok := init.Lhs[0].(*ast.Ident)
+	if !ok {
+		return nil
+	}
+	post, ok := x.Post.(*ast.IncDecStmt)
+	if !ok {
+		return nil
+	}
+	if pv, ok := post.X.(*ast.Ident); !ok || pv.Name != v.Name {
+		return nil
+	}
+	b, ok := stripParens(x.Cond).(*ast.BinaryExpr)
+	if !ok {
+		return nil
+	}
+	isV := func(e ast.Expr) bool { id, ok := stripParens(e).(*ast.Ident); return ok && id.Name == v.Name }
+	// the loop variable must not be written in the body
+	written := false
+	ast.Inspect(x.Body, func(n ast.Node) bool {
+		switch s := n.(type) {
+		case *ast.AssignStmt:
+			for _, l := range s.Lhs {
+				if isV(l) {
+					written = true
+				}
+			}
+		case *ast.IncDecStmt:
+			if isV(s.X) {
+				written = true
+			}
+		case *ast.UnaryExpr:
+			if s.Op == token.AND && isV(s.X) {
+				written = true
+			}
+		}
+		return true
+	})
+	if written {
+		return nil
+	}
+	switch {
+	case post.Tok == token.INC && isZero(init.Rhs[0]):
+		if isV(b.X) && (b.Op == token.LSS || b.Op == token.NEQ) {
+			return b.Y
+		}
+		if isV(b.Y) && (b.Op == token.GTR || b.Op == token.NEQ) {
+			return b.X
+		}
+	case post.Tok == token.DEC:
+		if (isV(b.X) && isZero(b.Y) && (b.Op == token.GTR || b.Op == token.NEQ)) || (isV(b.Y) && isZero(b.X) && (b.Op == token.LSS || b.Op == token.NEQ)) {
+			return init.Rhs[0]
+		}
+	}
+	return nil
+}
+
 func paramNames(fn *ast.FuncDecl) []string {
 	var out []string
 	for _, f := range fn.Type.Params.List {
@@ -474,25 +564,35 @@ func (c *p2pCtx) analyse(entry string, f *p2pFrame, depth int, seen map[*ast.Fun
 			if x.Cond == nil {
 				return true
 			}
-			cnd := f.toEntry(x.Cond)
-			b, ok := stripParens(cnd).(*ast.BinaryExpr)
-			if !ok {
-				return true
-			}
-			var bound ast.Expr
-			op := b.Op.String()
-			for _, side := range []ast.Expr{b.Y, b.X} {
-				for _, id := range c.localIdents(side) {
+			mentionsCount := func(e ast.Expr) bool {
+				for _, id := range c.localIdents(e) {
 					if f.tainted[id] != "" {
-						bound = side
+						return true
 					}
 				}
-				if bound != nil {
-					break
-				}
+				return false
 			}
-			if bound == nil {
-				return true
+			var bound ast.Expr
+			op := ""
+			if tc := tripCount(x); tc != nil && mentionsCount(f.toEntry(tc)) {
+				// a loop that runs `tc` times, whichever way it counts: `for i := 0; i < tc; i++`, `for r := tc; r > 0; r--`
+				bound, op = stripConversions(f.toEntry(tc)), "trips="
+			} else {
+				cnd := f.toEntry(x.Cond)
+				b, ok := stripParens(cnd).(*ast.BinaryExpr)
+				if !ok {
+					return true
+				}
+				for _, side := range []ast.Expr{b.Y, b.X} {
+					if mentionsCount(side) {
+						bound = side
+						break
+					}
+				}
+				if bound == nil {
+					return true
+				}
+				op = "cond " + b.Op.String() // a shape that is not a plain counting loop: printed as it is
 			}
 			checks := append(append([]ast.Expr{}, f.checkEx...), c.checksAt(f, x.Pos(), x.End())...)
 			t, _, readers := describe(bound, checks)
